@@ -58,3 +58,6 @@ class ScriptJob(Job):
 
     def request_stop(self):
         self._machine.stop()
+
+    def clear_stop(self):
+        self._machine.clear_stop()
